@@ -171,12 +171,9 @@ def multichain_policy_iteration_vectorized(
         gram_rf = gram_rf[ind_rows]
 
         # calculate minimum norm solution
-        gram_matrix = coeff_block@coeff_block.T
-        gram_solution = np.linalg.solve(
-            gram_matrix,
-            gram_rf
-        ) 
-        gain_bias = coeff_block.T@gram_solution
+        # (least squares on the system itself: forming the Gram matrix squares its
+        # condition number, which for slowly absorbing chains wipes out the gain)
+        gain_bias = np.linalg.lstsq(coeff_block, gram_rf, rcond=None)[0]
         gain, bias = gain_bias[:n_states], gain_bias[n_states:]
         if discount_rate < 1.0:
             # discounted: the gain is 0 and the bias is the discounted value, the unique
